@@ -19,7 +19,13 @@ pub enum Op {
     Reset,
     Spawn(Box<Op>),
     Abandon(usize, u64),
+    /// Name `n` synthetic contents `(start + i * stride) mod NAME_PROBES` through
+    /// `namer::name_from_content`: a name must be a function of the content alone, whatever was
+    /// named before in the process (enough contents for two of them to share a 4-symbol name).
+    NameBurst(u64, u32, u64),
 }
+
+pub const NAME_PROBES: u64 = 4096;
 
 impl Op {
     pub fn kind(&self) -> &'static str {
@@ -35,6 +41,7 @@ impl Op {
             Op::Reset => "reset",
             Op::Spawn(_) => "spawn",
             Op::Abandon(_, _) => "abandon",
+            Op::NameBurst(_, _, _) => "name_burst",
         }
     }
 }
@@ -214,6 +221,16 @@ pub fn generate(seed: u64, run: u64, depth: u32) -> Workload {
             ops.push(gen_op(&mut r, nq, true));
         }
         threads.push(ops);
+    }
+    // bursts of synthetic names (own stream): one or two, in other orders than the quiescent pass
+    let mut rb = Rng::stream(seed, run, "name_burst");
+    if rb.chance(0.4) {
+        for _ in 0..(1 + rb.usize(2)) {
+            let t = rb.usize(threads.len());
+            let at = rb.usize(threads[t].len() + 1);
+            let stride = 2 * rb.below(NAME_PROBES / 2) + 1;
+            threads[t].insert(at, Op::NameBurst(rb.below(NAME_PROBES), 800 + rb.below(1600) as u32, stride));
+        }
     }
     let sched = if r.chance(0.6) { Sched::Random(r.next_u64()) } else { Sched::Pct(r.next_u64(), 1 + r.usize(4)) };
     let sc_alt = Some(gen::generate(seed, run ^ 0x5555_5555, "C16").scenario);
